@@ -24,6 +24,8 @@ ASSUMPTIONS = [
     "momenta, energies, pdg finite/set; a particle's status may be unset (the real code raises ValueError, modelled)",
     "the prior file content, if any, consists of newline-terminated lines",
     "jet algorithm among antikt / kt / cambridge (the genkt variants take an extra parameter and are not exercised)",
+    "kt algorithm with R^2 not a power of two: fastjet applies the lower pT cut to kt2*R^2*(1/R^2), so a jet lying exactly "
+    "on the lower bound is rounding-dependent there; such coincidences are not generated (exact arithmetic in the model)",
 ]
 
 ALGS = {"antikt": 0, "kt": 1, "cambridge": 2}
@@ -332,7 +334,20 @@ def gen_call(rng, shape=None):
     # (possible only when they are soft) - otherwise keep them as they are; the distribution is recorded
     call["events"] = [ev if not (i in empty and ev) else soften(ev, call) for i, ev in enumerate(events)]
     tweak_bounds(rng, call)
+    sanitize(call)
     return call
+
+
+def sanitize(call):
+    """fastjet evaluates the ptmin cut of the kt algorithm on d_iB = kt2 * R^2 * (1/R^2), which rounds unless R^2 is a
+    power of two: a jet lying exactly on the lower bound is then kept or dropped by rounding (not modelled) - such
+    coincidences are taken out of the generated inputs by falling back to R = 0.5"""
+    if call["alg"] != "kt" or call["R"] in (0.25, 0.5, 1.0) or call["R"] <= 0:
+        return
+    bounds = [F(b) ** 2 for b in call["pt"] if b is not None and b >= 0]
+    if any(perp2(j["v"]) in bounds for ev in call["events"] if ev for j in cluster("kt", call["R"], ev)):
+        call["R"] = 0.5
+        call.pop("boundary", None)
 
 
 def soften(ev, call):
